@@ -527,7 +527,9 @@ def check_sympy_table_and_matrices(idx: Index, rep: Report, d: tr.Dispatch):
 
 
 # ---------------------------------------------------------------------------------------------------
-def check_bit_order(idx: Index, rep: Report):
+def check_sampled_keys(idx: Index, rep: Report):
+    """index <-> bitstring conversion of the backend base class and the round trip exact keys -> integers -> sampled keys (shared with C18: histograms built
+    from sampled statevectors carry the bit order every histogram operation relies on)"""
     rule = "K10.bit-order"
     # -- Backend._int_to_binstr folded for the three cases
     f = idx.function(f"{BACKEND}::Backend._int_to_binstr")
@@ -567,18 +569,40 @@ def check_bit_order(idx: Index, rep: Report):
     rep.decide(ok, rule, g, first, text="exact frequencies keyed by _int_to_binstr(i, n_qubits)",
                what="exact frequencies use the backend's declared ordering", reason=f"call {norm(first)}")
     toint = [c for c in own_nodes(g.node) if isinstance(c, ast.Call) and isinstance(c.func, ast.Name) and c.func.id == "int" and len(c.args) == 2]
-    rev_in = bool(toint) and isinstance(toint[0].args[0], ast.Subscript) and norm(toint[0].args[0].slice) == "::-1"
-    uo = None
-    if len(second.args) >= 3:
-        uo = norm(second.args[2])
-    for k in second.keywords:
-        if k.arg == "use_ordering":
-            uo = norm(k.value)
-    rev_out = (uo == "False")
-    rep.decide(rev_in == rev_out and bool(toint), rule, g, second,
-               text=f"sampling round trip: int(key{'[::-1]' if rev_in else ''}, 2) ... _int_to_binstr(k, n, {uo})",
-               what="sampled outcomes are re-keyed in the same bit order as the exact keys (the reversal before int() is undone after sampling)",
-               reason="bit order of sampled keys differs from the exact keys: sampled distributions come out bit-reversed")
+    if not toint:
+        raise AnalysisError("_statevector_to_frequencies: conversion of the exact keys to integers not found")
+    # the key -> integer conversion folded on an asymmetric key: does it read the key as it is, or reversed?
+    free = {n.id for n in ast.walk(toint[0]) if isinstance(n, ast.Name) and n.id != "int"}
+    try:
+        as_int = Folder(env={nm: "100" for nm in free}).expr(toint[0])
+    except (Undecidable, Raised) as e:
+        raise AnalysisError(f"_statevector_to_frequencies: {norm(toint[0])} not foldable: {e}")
+    if as_int not in (4, 1):
+        raise AnalysisError(f"_statevector_to_frequencies: {norm(toint[0])} maps '100' to {as_int!r}")
+    rev_in = as_int == 1
+    # the way back: use_ordering as the second call passes it (the parameter's default otherwise), folded through _int_to_binstr for both declared orders
+    uo_node = second.args[2] if len(second.args) >= 3 else next((k.value for k in second.keywords if k.arg == "use_ordering"), None)
+    if uo_node is None:
+        pos = [a.arg for a in f.node.args.args]
+        dflt = dict(zip(pos[len(pos) - len(f.node.args.defaults):], f.node.args.defaults)).get("use_ordering")
+        uo_node = dflt
+    if not isinstance(uo_node, ast.Constant) or not isinstance(uo_node.value, bool):
+        raise AnalysisError(f"_statevector_to_frequencies: use_ordering of the sampled keys is not a literal ({norm(uo_node) if uo_node is not None else '?'})")
+    for order in ("lsq_first", "msq_first"):
+        rev_out = reversed_for(uo_node.value, order)
+        rep.decide(rev_in == rev_out, rule, g, second,
+                   text=f"sampling round trip on a {order} backend: {norm(toint[0])} ... {norm(second)[:60]}",
+                   what="sampled outcomes are re-keyed in the same bit order as the exact keys, whatever statevector order the backend declares (a reversal before int() is "
+                        "undone after sampling, and only then)",
+                   reason=f"the exact key is read {'reversed' if rev_in else 'as it is'} and the sampled integer is written back {'reversed' if rev_out else 'as it is'}: on a "
+                          f"{order} backend sampled distributions come out bit-reversed")
+
+
+# ---------------------------------------------------------------------------------------------------
+def check_bit_order(idx: Index, rep: Report):
+    rule = "K10.bit-order"
+    check_sampled_keys(idx, rep)
+    f = idx.function(f"{BACKEND}::Backend._int_to_binstr")
     # -- cirq: sampled rows are joined in qubit order 0..n-1
     sim = idx.function(f"{TCIRQ}::CirqSimulator.simulate_circuit")
     joins = [c for c in own_nodes(sim.node) if isinstance(c, ast.Call) and isinstance(c.func, ast.Attribute) and c.func.attr == "join" and "isamples" in norm(c)]
